@@ -367,6 +367,23 @@ pub fn def() -> PropertyDef {
                 },
                 cross_oracle,
             ),
+            // party indices beyond 255 (the recorded vectors stop at 8 parties): one-bit aggregates of 512 commitments
+            sub(
+                "R/cross-direction-512-parties",
+                |_: &RunCtx| vec![Cfg { bits: 1, m: 512, cap: 512, ext: 1 }, Cfg { bits: 1, m: 512, cap: 1024, ext: 2 }],
+                (6, 40),
+                |_: &RunCtx, f: Option<&Cfg>| {
+                    let cfg = match f {
+                        Some(c) => Just(*c).boxed(),
+                        None => (1usize..=6).prop_map(|ext| Cfg { bits: 1, m: 512, cap: 512, ext }).boxed(),
+                    };
+                    (triple_strategy(cfg), healthy_rng_strategy()).prop_map(|(mut t, r)| {
+                        t.rng = r;
+                        t
+                    })
+                },
+                cross_oracle,
+            ),
         ],
     }
 }
